@@ -240,6 +240,14 @@ func runRingCase(t *testing.T, run *vt.Run, c vt.CaseID, rng *rand.Rand, rc ring
 		rsig := rc.sig()
 		mx := hasMaxTok(rc.Insts)
 		sampled := false
+		// the same lookups through a derived ring that holds every instance (a shuffle shard at least as large as the
+		// ring): derived rings rebuild their token circle from per-zone lists, the answers must not change
+		subs := make([]ring.ReadRing, len(rings))
+		for ri, l := range rings {
+			if p, _ := vt.Recover(func() { subs[ri] = l.r.ShuffleShard("everything", 2*len(rc.Insts)+8) }); p != nil {
+				subs[ri] = nil
+			}
+		}
 		for _, key := range keys {
 			for _, op := range ops {
 				walked := spec.Walk(rc.Insts, key, rc.RF, rc.ZoneAware, op.spec)
@@ -248,9 +256,14 @@ func runRingCase(t *testing.T, run *vt.Run, c vt.CaseID, rng *rand.Rand, rc ring
 				for ri, l := range rings {
 					var rs ring.ReplicationSet
 					var err error
-					mode := (int(key) + ri + len(op.spec.Name)) % 4
+					mode := (int(key) + ri + len(op.spec.Name)) % 5
+					if mode == 4 && subs[ri] == nil {
+						mode = 0
+					}
 					p, stack := vt.Recover(func() {
 						switch mode {
+						case 4:
+							rs, err = subs[ri].Get(key, op.real, nil, nil, nil)
 						case 0:
 							rs, err = l.r.Get(key, op.real, nil, nil, nil)
 						case 1:
